@@ -108,13 +108,15 @@ Theorem C12_error_bit_set_iff_reported : forall (l : list Z) (n : Z), (forall c,
 Proof. exact or_codes_bit. Qed.
 Print Assumptions C12_error_bit_set_iff_reported.
 
-(* (v) Log indentation.  FULL STATEMENT (false of the code):  forall base th, depth_smp base th = depth_serial base.
-   smp_loop raises the depth counter of the calling thread only, so a message logged by a component that runs
-   on another worker thread is indented one level less than in the serial run. *)
-Theorem C12_log_depth_refuted : exists base th, depth_smp base th <> depth_serial base.
-Proof. exact depth_smp_worker_refuted. Qed.
-Print Assumptions C12_log_depth_refuted.
+(* (v) Log indentation: a message logged by a component is indented as in the serial run on every thread whose
+   depth counter started from the value of the calling thread's (the counters are allocated together with one
+   common value; only the calling thread's moves between parallel loops, and it is back at that value whenever
+   calc_colvars starts its loop).  Before the repair `fix: smp_loop raises the log depth of every thread that runs
+   items` this was false on every thread but thread 0 (SmpProofs.depth_smp_unfixed_refuted). *)
+Theorem C12_log_depth_consistent : forall (bases : nat -> nat) (th : nat),
+  bases th = bases 0 -> depth_smp bases th = depth_serial (bases 0).
+Proof. exact depth_smp_consistent. Qed.
+Print Assumptions C12_log_depth_consistent.
 
-Theorem C12_log_depth_partial : forall base, depth_smp base 0 = depth_serial base.
-Proof. exact depth_smp_thread0. Qed.
-Print Assumptions C12_log_depth_partial.
+Example C12_log_depth_example : (fun _ : nat => 0) 3 = (fun _ : nat => 0) 0 /\ depth_smp (fun _ => 0) 3 = 2.
+Proof. split; reflexivity. Qed.
